@@ -78,6 +78,10 @@ def mk_engine(repo, grammars):
             return outs
         return f
     def getattr_hook(st, base, attr, ctx, node):
+        if isinstance(base, tuple) and len(base) == 2 and base[0] == "dctx":
+            r = dctx_attr(base, attr)
+            if r is None: raise Unsupported(f"decimal.Context.{attr}")
+            return [(st, r)]
         if isinstance(base, tuple) and base and base[0] == "grammar" and attr == "parse": return [(st, ("abstract", do_parse(base[1])))]
         if isinstance(base, tuple) and base and base[0] == "cenum":
             if attr in base[1]: return [(st, base[1][attr])]
@@ -134,8 +138,41 @@ def mk_engine(repo, grammars):
         if len(args) == 1 and isinstance(args[0], SFloat) and not kw: raise Unsupported("int(float)")
         return None
     eng.py_calls["builtins.int"] = b_int
+    # decimal.Context(prec=N): arithmetic through a context rounds its result to N significant digits - exact when the coefficient has at most N digits, otherwise *some*
+    # other decimal (which one is not modelled: the specification wants the exact product, so any rounding is a counterexample candidate that the replay then checks)
+    def dec_context(e, st, args, kw, ctx, node):
+        prec = kw.get("prec", 28)
+        if not isinstance(prec, int): raise Unsupported("decimal.Context(prec=<symbolic>)")
+        return [(st, ("dctx", prec))]
+    eng.py_calls["decimal.Context"] = dec_context
+    for nm in ("ROUND_HALF_EVEN", "ROUND_HALF_UP", "ROUND_DOWN", "ROUND_UP", "ROUND_FLOOR", "ROUND_CEILING", "ROUND_HALF_DOWN", "ROUND_05UP"): eng.consts.setdefault("decimal." + nm, nm)
+    def rounded(m, e_, prec, st=None, eng_=None):
+        mi = to_int(m); fits = z3.And(mi > -(10 ** prec), mi < 10 ** prec)
+        if st is not None and eng_ is not None:
+            probe = st.fork(); probe.pc.append(z3.Not(fits))
+            if not eng_.feasible(probe): return SDec(m, e_)          # the coefficient always fits: the operation is exact
+        return SDec(SInt(z3.If(fits, mi, fresh("dec_rounded_m", z3.IntSort()))), SInt(z3.If(fits, to_int(e_), fresh("dec_rounded_e", z3.IntSort()))))
+    def dctx_attr(base, attr):
+        prec = base[1]
+        def as_dec(v):
+            if isinstance(v, SDec): return v
+            if isinstance(v, (int, SInt, SBV)) and not isinstance(v, bool): return SDec(v, 0)
+            raise Unsupported("decimal context operand")
+        def multiply(e, st, args, ctx, node):
+            a_, b_ = as_dec(args[0]), as_dec(args[1])
+            m_ = b_.m if (isinstance(a_.m, int) and a_.m == 1) else a_.m if (isinstance(b_.m, int) and b_.m == 1) else SInt(to_int(a_.m) * to_int(b_.m))
+            e_ = b_.e if (isinstance(a_.e, int) and a_.e == 0) else a_.e if (isinstance(b_.e, int) and b_.e == 0) else SInt(to_int(a_.e) + to_int(b_.e))
+            return [(st, rounded(m_, e_, prec, st, e))]
+        def power(e, st, args, ctx, node):
+            a_ = as_dec(args[0])
+            if not (isinstance(a_.m, int) and a_.m == 10 and isinstance(a_.e, int) and a_.e == 0): raise Unsupported("Context.power base")
+            return [(st, SDec(1, args[1]))]
+        def create_decimal(e, st, args, ctx, node): a_ = as_dec(args[0]); return [(st, rounded(a_.m, a_.e, prec, st, e))]
+        f = {"multiply": multiply, "power": power, "create_decimal": create_decimal}.get(attr)
+        return ("abstract", f) if f else None
+    prev_hook = None
     # decimal / datetime
-    eng.py_calls["decimal.Decimal"] = lambda e, st, args, kw, ctx, node: [(st, SDec(args[0], 0))] if (len(args) == 1 and isinstance(args[0], int)) else (_ for _ in ()).throw(Unsupported("Decimal() form"))
+    eng.py_calls["decimal.Decimal"] = lambda e, st, args, kw, ctx, node: [(st, SDec(args[0], 0))] if (len(args) == 1 and isinstance(args[0], (int, SInt, SBV)) and not isinstance(args[0], bool)) else (_ for _ in ()).throw(Unsupported("Decimal() form"))
     def binop_hook(op, a, b, node, st, ctx):
         a_ = a.v if isinstance(a, G.EnumVal) else a; b_ = b.v if isinstance(b, G.EnumVal) else b
         if isinstance(a_, SDec) and isinstance(op, ast.Pow):
@@ -159,7 +196,14 @@ def mk_engine(repo, grammars):
             if not isinstance(op, (ast.Eq, ast.NotEq)): raise Unsupported("Decimal ordering")
             # o == m * 10**e for the same integer term m: exactly when e == 0 or m == 0  (10**e != 1 for e != 0)
             same = (o is d.m) or (is_sym(o) and is_sym(d.m) and to_int(o).eq(to_int(d.m))) or (isinstance(o, int) and isinstance(d.m, int) and o == d.m)
-            if not same: raise Unsupported("Decimal comparison with a different integer")
+            if not same:
+                # different integer terms (e.g. a coefficient rounded by a decimal context): decided for e == 0 and for zero, otherwise left open (a fresh boolean: over-approximation)
+                if not (isinstance(o, (int, SInt, SBV)) and not isinstance(o, bool)): raise Unsupported("Decimal comparison with a non-integer")
+                oi, mi, ei = to_int(o), to_int(d.m), to_int(d.e)
+                c = z3.Or(z3.And(ei == 0, oi == mi), z3.And(oi == 0, mi == 0), z3.And(ei != 0, mi != 0, oi != 0, fresh("dec_eq_open", z3.BoolSort())))
+                r = SBool(c)
+                if isinstance(op, ast.NotEq): r = SBool(z3.Not(c))
+                return r
             c = z3.simplify(z3.Or(to_int(d.e) == 0, to_int(o) == 0))
             r = True if z3.is_true(c) else False if z3.is_false(c) else SBool(c)
             if isinstance(op, ast.NotEq): r = (not r) if isinstance(r, bool) else SBool(z3.Not(r.e))
